@@ -2,6 +2,8 @@
   C09: the failure-point facts of the models, computed from what factgen regenerated from the source.
 -/
 import OidcModel.Model.C09
+import OidcModel.Model.C09Bounds
+import OidcModel.Model.C09Fields
 import OidcModel.Generated.C09Facts
 
 namespace C09
